@@ -98,6 +98,11 @@ def check_c11(ctx):
     n3 = evalfam.sample_file(allp3, runp3, 8000 if quick else None, rnd)
     ctx.notes["generators"].update(recursive_programs=g3["cases"], recursive_programs_executed=n3)
     res.update(run_cases(ctx, runp3, "recur"))
+    # name-prefix refinement by positive / negated :match_prefix on prefix- and union-typed variables (exhaustive)
+    runp4 = os.path.join(ctx.work, "prefix.ndjson")
+    g4 = ctx.gen_cases("BoundsGen", "BoundsGen_prefix.cfg", runp4, workers=4, idprefix="x-")
+    ctx.notes["generators"].update(prefix_programs=g4["cases"])
+    res.update(run_cases(ctx, runp4, "prefix"))
     k = 0
     for r in res.values():
         if r["outcome"] == "ok" and any(s["pred"] == "dst" for s in r["stored"]):
